@@ -54,6 +54,13 @@ CHECK_RE = re.compile(r"Check (\d+): (\S+)\n\s+- Status: (\w+)\n\s+- Description
 IGNORED = re.compile(r"^NaN on |arithmetic overflow on floating-point")
 
 
+# Failed checks of these kinds come from CBMC's memory model / Kani's unsupported-feature stubs (nalgebra works on
+# uninitialised buffers); they are not Rust panics.  A run that contains one is UNDETERMINED as a whole: its
+# other failed assertions may be consequences of the same modelling gap.  Unwinding assertions mean the bound
+# was too small: undetermined as well.
+UNRELIABLE = re.compile(r"dereference failure|does not support|unsupported|pointer NULL|pointer invalid|pointer outside|deallocated dynamic object|dead object|invalid integer address|unwinding assertion|recursion unwinding|same_allocation|misaligned", re.I)
+
+
 def parse_kani(out):
     """returns dict(status, failed=[(desc, loc)], undetermined=[...], covers={desc: SATISFIED|...}, checks=n)"""
     failed, undet, covers = [], [], {}
@@ -72,6 +79,10 @@ def parse_kani(out):
             if IGNORED.search(desc):
                 continue
             undet.append((desc, loc or ""))
+    unreliable = [f for f in failed if UNRELIABLE.search(f[0])]
+    if unreliable and "VERIFICATION:- SUCCESSFUL" not in out:
+        undet = undet + failed
+        failed = []
     if "VERIFICATION:- SUCCESSFUL" in out:
         status = "success"
     elif "VERIFICATION:- FAILED" in out:
